@@ -94,6 +94,7 @@ def pointer_roles(fb):
     if _ROLES_FOR[0] is fb:
         return ROLES
     _ROLES_FOR[0] = fb
+    _FB[0] = fb
     ROLES.clear()
     from . import startup_model
     startup_model.init_reader_open(fb)
@@ -185,6 +186,67 @@ def classify_effects(p):
         else:
             evs.append(Ev(n, 'other', ef, name=name))
     return evs
+
+
+def _param_rooted(body, ptr):
+    """is the pointer a store goes through derived only from a parameter of the analysed root (no provenance here)?"""
+    names = {body.debug_names.get(i, 'arg%d' % i) for i in range(1, body.argc + 1)}
+    syms = [y for y in psi.walk(ptr) if y[0] == 'sym']
+    calls = [y for y in psi.walk(ptr) if y[0] == 't' and y[1] == 'call']
+    return bool(syms) and all(y[1] in names for y in syms) and not calls
+
+
+def mapping_store_sites(fb, bodies, kinds=('gstore', 'vstore', 'astore', 'dwrite'), want_direct=lambda b: True):
+    """every store-like effect into (possibly) the mapping made by `bodies`, each classified with as much pointer provenance
+    as some caller chain provides: a helper that stores through its own parameter (`fn announce(&self, g)`) is classified
+    where it is inlined into a function that knows where the pointer came from.
+    Returns [(kind, site string, owner function path, Ev)]; a site no root could classify keeps kind 'astore'."""
+    from .startup_model import is_reader_new, init_reader_open
+    init_reader_open(fb)
+    _FB[0] = fb
+    pointer_roles(fb)
+    callers = common.callers_map(fb)
+    byp = {b.path: b for b in bodies}
+
+    def direct(b):
+        return any(fn and (mir.callee_name(fn) in DATA_WRITES or atomic_kind(mir.callee_name(fn)) in ATOMIC_WRITES) for bb, t, fn in common.user_calls(b))
+    roots = [b for b in bodies if b.defkind != 'Closure' and direct(b) and want_direct(b)]
+    best = {}          # (site) -> (kind, owner, ev)
+    pending = set()
+    done = set()
+    work = list(roots)
+    while work:
+        b = work.pop()
+        if b.path in done:
+            continue
+        done.add(b.path)
+        eng = common.mk_engine(fb, inline_depth=8, no_inline=is_reader_new)
+        try:
+            paths = eng.run(b)
+        except psi.PathLimit:
+            continue
+        need_callers = bool(getattr(b, 'generics', None))      # a generic helper is classified where it is instantiated
+        for p in paths:
+            for e in classify_effects(p):
+                if e.kind not in ('gstore', 'vstore', 'astore', 'dwrite'):
+                    continue
+                owner = e.ef['site'][0]
+                key = (e.ef['site'][0], e.ef['site'][1])
+                if e.kind in ('astore',) or (e.kind == 'dwrite' and e.field is None):
+                    if _param_rooted(b, e.ef['args'][0]):
+                        need_callers = True
+                        pending.add(key)
+                        if key not in best:
+                            best[key] = (e.kind, owner, e)
+                        continue
+                if key not in best or best[key][0] in ('astore',) or (best[key][0] == 'dwrite' and best[key][2].field is None):
+                    best[key] = (e.kind, owner, e)
+        if need_callers:
+            for c in callers.get(b.path, ()):
+                cb = fb.body(c)
+                if cb is not None and cb.path not in done and (cb.path in byp or cb.crate.name == b.crate.name):
+                    work.append(cb)
+    return [(k, ev.site, owner, ev) for key, (k, owner, ev) in sorted(best.items(), key=lambda kv: (kv[0][0], kv[0][1])) if k in kinds]
 
 
 _FB = [None]
